@@ -27,6 +27,11 @@ nx = lambda a, b, l: l.startswith('exc:')
 
 def check(run):
     R = run
+    R.rule('C13.shared', 'objects created once per class / per function definition (class-level attributes, parameter '
+           'defaults) are only read: no buffer, validator, poll object, header list or option dict is shared between '
+           'connections', 1)
+    from .common import shared_state
+    shared_state(R, 'C13.shared')
     R.rule('C13.yields', 'every yield of run() at which the socket may be open: its GeneratorExit path closes the '
                          'socket before the generator frame is left (outer frame, or every paired feed suspension)', 4)
     R.rule('C13.selector', 'every yield at which the selector exists: its GeneratorExit path closes the selector', 4)
@@ -151,7 +156,7 @@ def exit_(R):
          node=(c3[0][1] if c3 else None), construct='on_disconnect guard')
 
 
-def closes(R):
+def closes(R, RID='C13.closes'):
     q = S + '._close_socket'
     g = R.cfg(q)
     rd = ReachingDefs(g)
@@ -161,7 +166,7 @@ def closes(R):
     for l in _paths_avoiding(R, g, rd, g.entry, g.exit, set(cl)):
         if ('self._sock is None', True) not in l:
             bad.append(sorted(l))
-    R.ob('C13.closes', 'descriptor closed whenever a socket is present', not bad,
+    R.ob(RID, 'descriptor closed whenever a socket is present', not bad,
          '_close_socket() can return without calling close() although a socket is present: %s' % bad[:1], func=q,
          node=None, construct='_close_socket skip path %s' % bad[:1])
     # ... also when an operation on the socket that precedes close() fails (shutdown() on a connection the peer has
@@ -179,15 +184,15 @@ def closes(R):
     reach = gf.reachable(starts, avoid=set(clf))
     leaks = [n for n in reach if any((m is gf.exit or m is gf.raise_exit) for (m, l) in n.succ)]
     via = [n for n in reach if any(l.startswith('exc:') for (m, l) in n.succ) and n.calls]
-    R.ob('C13.closes', 'descriptor closed even when an earlier socket operation fails', not leaks,
+    R.ob(RID, 'descriptor closed even when an earlier socket operation fails', not leaks,
          '_close_socket() can finish without close() when `%s` raises a socket error: the handler swallows it and the '
          'socket is forgotten open' % (via[0].text()[:60] if via else ''), func=q, node=(via[0].ast if via else None),
          construct='_close_socket: close skipped after a failing socket operation')
     acq = [c for n in g.live_nodes() for c in n.calls if any(t.kind == 'ext' and t.name in ('lock.acquire', 'lock.release', 'lock.locked')
                                                             for t in R.types.call_targets(c, g.ctx))]
-    R.ob('C13.closes', 'write lock taken only by `with`', not acq, '_close_socket uses %s' % [U(c) for c in acq], func=q,
+    R.ob(RID, 'write lock taken only by `with`', not acq, '_close_socket uses %s' % [U(c) for c in acq], func=q,
          node=(acq[0] if acq else None))
     withs = [n for n in g.live_nodes() if n.kind == 'with' and any('x:lock' in R.types.expr(i.context_expr, g.ctx) for i in n.ast.items)]
     inlock = all(any(fr.kind == 'with' and fr.node in withs for fr in n.frames) for n in cl)
-    R.ob('C13.closes', 'close happens under the write lock', bool(withs) and inlock, 'close() outside `with self._lock`', func=q,
+    R.ob(RID, 'close happens under the write lock', bool(withs) and inlock, 'close() outside `with self._lock`', func=q,
          node=None, construct='close under lock')
